@@ -388,8 +388,11 @@ fn build_request(s: &Setup, r: &Value) -> Built {
         "n" => ("echo_n".into(), vec![("n", nv.clone())], nv.clone()),
         "scale" => {
           let sc = pi64(r, "sc");
-          let rounded = crate::jsonval::round_half_even(pstr(r, "n"), sc).unwrap_or_else(|| "0".to_string());
-          ("scale_n".into(), vec![("n", nv.clone()), ("sc", Val::Num(sc.to_string()))], Val::Num(rounded))
+          // what the decision returns is established by evaluating its expression directly (the service has
+          // to render THAT value, whatever the rounding rule of `decimal` is); the simulator's own half-even
+          // rounding only stands in when the expression cannot be evaluated here
+          let expected = evaluated_directly(&format!("decimal({}, {})", pstr(r, "n"), sc), &[]).unwrap_or_else(|| Val::Num(crate::jsonval::round_half_even(pstr(r, "n"), sc).unwrap_or_else(|| "0".to_string())));
+          ("scale_n".into(), vec![("n", nv.clone()), ("sc", Val::Num(sc.to_string()))], expected)
         }
         "b" => ("echo_b".into(), vec![("b", bv.clone())], bv.clone()),
         "snull" => ("echo_s".into(), vec![("s", Val::Null)], Val::Null),
@@ -410,7 +413,9 @@ fn build_request(s: &Setup, r: &Value) -> Built {
         "keys" => (
           "odd_keys".into(),
           vec![("s", sv.clone()), ("n", nv.clone()), ("b", bv.clone())],
-          Val::Ctx(vec![
+          // as evaluated directly (names may be normalised by the implementation); the literal expectation
+          // stands in when the inputs cannot be written as FEEL literals (scientific notation)
+          evaluated_directly(ODD_KEYS_EXPRESSION, &[("s", &sv), ("n", &nv), ("b", &bv)]).unwrap_or_else(|| Val::Ctx(vec![
             ("".into(), sv.clone()),
             ("a\"b".into(), sv.clone()),
             ("1".into(), Val::List(vec![Val::List(vec![sv.clone()]), Val::List(vec![]), Val::List(vec![Val::List(vec![nv.clone(), Val::List(vec![bv.clone()])])])])),
@@ -420,7 +425,7 @@ fn build_request(s: &Setup, r: &Value) -> Built {
             ("k\u{1}".into(), nv.clone()),
             ("e".into(), Val::Ctx(vec![])),
             ("le".into(), Val::List(vec![Val::Ctx(vec![]), Val::List(vec![]), Val::Ctx(vec![("".into(), Val::Ctx(vec![]))])])),
-          ]),
+          ])),
         ),
         "d" | "t" | "dt" | "dd" | "ym" => {
           let ty = match dec {
@@ -2107,6 +2112,47 @@ pub fn loopback_pass(seed: u64) -> ExtraPass {
   let _ = child.wait();
   pass.note = format!("real start_server on 127.0.0.1:{}, {} sequential requests over TCP; not simulation, not counted in evaluations", port, pass.counters.get("requests"));
   pass
+}
+
+/// The literal expression of decision `odd_keys` of the alphabet models (models.rs).
+const ODD_KEYS_EXPRESSION: &str = "{\"\": s, \"a\\\"b\": s, \"1\": [[s], [], [[n, [b]]]], \"x\ty\": {\"\": []}, \"\\\\\": null, \"\u{e9}\u{4e2d}\": b, \"k\\u0001\": n, \"e\": {}, \"le\": [{}, [], {\"\": {}}]}";
+
+/// The value of a FEEL expression over the given inputs as the code under test evaluates it, converted
+/// to the simulator's abstract values. `None` when it cannot be parsed or holds kinds the echo oracle
+/// does not compare (temporal values, functions, ranges).
+fn evaluated_directly(expression: &str, inputs: &[(&str, &Val)]) -> Option<Val> {
+  use dmntk_feel::values::Value as F;
+  fn convert(v: &F) -> Option<Val> {
+    Some(match v {
+      F::Null(_) => Val::Null,
+      F::Boolean(b) => Val::Bool(*b),
+      F::Number(n) => Val::Num(n.to_string()),
+      F::String(s) => Val::Str(s.clone()),
+      F::List(items) => Val::List(items.as_vec().iter().map(convert).collect::<Option<Vec<_>>>()?),
+      F::Context(c) => Val::Ctx(c.get_entries().into_iter().map(|(k, v)| convert(v).map(|x| (k.to_string(), x))).collect::<Option<Vec<_>>>()?),
+      _ => return None,
+    })
+  }
+  let bindings: Vec<String> = inputs.iter().map(|(k, v)| format!("{}: {}", k, v.to_feel())).collect();
+  let text = format!("{{{}{}result of the decision: {}}}", bindings.join(", "), if bindings.is_empty() { "" } else { ", " }, expression);
+  let ctx = std::panic::catch_unwind(|| dmntk_feel_evaluator::evaluate_context(&dmntk_feel::Scope::default(), &text)).ok()?.ok()?;
+  let name: dmntk_feel::Name = "result of the decision".into();
+  let value = ctx.get_entry(&name)?;
+  // an infinite or NaN number has no decimal text: leave such results to the well-formedness rule alone
+  let v = convert(value)?;
+  fn finite(v: &Val) -> bool {
+    match v {
+      Val::Num(n) => crate::jsonval::canonical_decimal(n).is_some(),
+      Val::List(items) => items.iter().all(finite),
+      Val::Ctx(entries) => entries.iter().all(|(_, x)| finite(x)),
+      _ => true,
+    }
+  }
+  if finite(&v) {
+    Some(v)
+  } else {
+    None
+  }
 }
 
 /// Rewrites the simple values of a TCK input in place: flavour bit 0 - numbers that are integers are
